@@ -1024,7 +1024,8 @@ theorem isVisible_meaning (rules : List Rule) : ∀ (chain : List Obj) (c : Cach
   | [], c => by simp [isVisible, run]
   | ob :: parents, c => by
     have ih := isVisible_meaning rules parents (privacyClass rules c ob).2
-    simp only [isVisible, run]
+    rw [isVisible]
+    simp only [run]
     cases hp : privacyClass rules c ob with
     | mk r c' =>
       rw [hp] at ih
@@ -1037,17 +1038,17 @@ theorem isVisible_meaning (rules : List Rule) : ∀ (chain : List Obj) (c : Cach
           | nil => simp [hl, run]
           | cons p ps =>
             simp only [ne_eq, hl, not_false_eq_true, if_true, List.mem_cons, forall_eq_or_imp,
-              List.dropLast_cons₂]
+              List.dropLast_cons_cons]
             by_cases hc : ob.inContents = true
             · simp only [hc, if_true]
               rw [ih]
               constructor
-              · rintro ⟨h1, h2⟩; exact ⟨⟨⟨l, rfl, hl⟩, h1⟩, rfl, h2⟩
+              · rintro ⟨h1, h2⟩; exact ⟨⟨⟨l, rfl, hl⟩, h1⟩, trivial, h2⟩
               · rintro ⟨⟨_, h1⟩, _, h2⟩; exact ⟨h1, h2⟩
             · simp only [hc, if_false, Bool.false_eq_true]
               constructor
               · intro h; cases h
-              · rintro ⟨_, h, _⟩; exact absurd h hc
+              · rintro ⟨_, h, _⟩; exact h.elim
 
 example : (isVisible [⟨.hidden, ['m']⟩] [] [⟨['m', '.', 'a'], ['a'], false, false, true⟩, ⟨['m'], ['m'], true, false, true⟩]).1
     = .ok false := by decide
